@@ -635,7 +635,8 @@ fn real_emissions(seed: u64, i: u64, base: &str) -> ReplyStats {
         let kvs: Vec<_> = kvs.into_iter().filter(|kv| kv.3 == 0 || kv.2 > gc).collect();
         let maxv = if kvs.is_empty() && rng.random_bool(0.5) { rng.random_range(0..9) } else { ver + rng.random_range(0..2) };
         if let Err(e) = install_member(&mut s.cc, &cluster, &id, 1 + m as u64, gc, &kvs, maxv) {
-            st.findings.push(Finding::new(&["C08"], "wire.real_decoder_rejects_independent", format!("case {i}: install: {e}")));
+            let kind = if e.starts_with("PANIC") { "wire.panic_while_processing_independent_encoding" } else { "wire.real_decoder_rejects_independent" };
+            st.findings.push(Finding::new(&["C08"], kind, format!("case {i}: install: {e}")));
         }
     }
     st.sample = Some(json!({"case": i, "own_id_len": own_len, "cluster_id_len": cluster.len(), "members": s.cc.node_states().len()}));
